@@ -30,7 +30,8 @@ import (
 )
 
 type lkE2E struct {
-	Signed []string `json:"signed,omitempty"` // package names whose .apk carries a (fake) signature member
+	Signed []string      `json:"signed,omitempty"` // package names whose .apk carries a (fake) signature member
+	Glue   *gluelockPlan `json:"glue,omitempty"`   // option matrix and faults (lock_glue.go)
 }
 
 func lkSanitize(c *lkCase) {
@@ -91,6 +92,7 @@ func lkGenE2E(r *Rng, tier string) lkCase {
 			e.Signed = append(e.Signed, n)
 		}
 	}
+	e.Glue = gluelockGenPlan(r, tier)
 	c.E2E = e
 	return c
 }
@@ -243,9 +245,12 @@ type lkLockFile struct {
 }
 
 // lkCheckRanges recomputes every recorded range and checksum from the package file the URL points at.
-func lkCheckRanges(l lkLockFile) string {
+func lkCheckRanges(l lkLockFile) string { return lkCheckRangesWith(l, os.ReadFile) }
+
+// read: the file behind a recorded URL (a directory repository, or the in-process HTTP repository)
+func lkCheckRangesWith(l lkLockFile, read func(url string) ([]byte, error)) string {
 	for _, p := range l.Contents.Packages {
-		b, err := os.ReadFile(p.URL)
+		b, err := read(p.URL)
 		if err != nil {
 			return "bad:url:" + p.Name
 		}
@@ -323,6 +328,7 @@ func lkRunE2E(c lkCase) []Step {
 	ltmp := filepath.Join(work, "tmp-l")
 	os.MkdirAll(ltmp, 0o755)
 	lerr := verifapi.LockCmd(context.Background(), lockPath, archs, []build.Option{build.WithImageConfiguration(ic), build.WithTempDir(ltmp), build.WithSBOMFormats(nil)})
+	var locked E2EOut
 	if lerr != nil {
 		st["lock"] = "err"
 	} else {
@@ -347,7 +353,7 @@ func lkRunE2E(c lkCase) []Step {
 			}
 			st["pkgs"] = strings.Join(parts, ";")
 		}
-		locked := lkBuild(work, ic, archs, lockPath, "k")
+		locked = lkBuild(work, ic, archs, lockPath, "k")
 		switch {
 		case locked.Err != nil:
 			st["locked"] = "err"
@@ -460,6 +466,11 @@ func lkRunE2E(c lkCase) []Step {
 			extra = append(extra, Step{Line: "x.robust\tlock-rawarch-" + hx(strings.Join(c.World, ",")+"............")[:12], Go: got, Mode: "oracle-go", GoSpec: verdict, NoImpl: true,
 				Desc: fmt.Sprintf("build --lockfile with build.WithArch(%q): ", a0) + describeCase(rCase{Archs: c.Archs, World: c.World}, 0), Tags: []string{"e2e:lock-rawarch:" + strings.SplitN(got, " ", 2)[0]}})
 		}
+	}
+	// the glue between lock, lock file and build --lockfile: option matrix and faults (lock_glue.go)
+	{
+		refLock, _ := os.ReadFile(lockPath)
+		extra = append(extra, gluelockSteps(work, c, ic, archs, string(refLock), lerr, locked)...)
 	}
 	out := "build=" + st["build"] + " lock=" + st["lock"] + " ranges=" + st["ranges"] + " locked=" + st["locked"] + " same=" + st["same"] + " samefs=" + st["samefs"] + " pkgs=" + st["pkgs"]
 	fields := append([]string{"l.e2e", xl(c.World)}, encodeArchs(c.Archs)...)
